@@ -161,9 +161,16 @@ type ackHook struct {
 
 var acks = &ackHook{m: map[string]*int64{}}
 
-func (h *ackHook) Levels() []logrus.Level { return []logrus.Level{logrus.InfoLevel} }
+func (h *ackHook) Levels() []logrus.Level {
+	return []logrus.Level{logrus.InfoLevel, logrus.FatalLevel, logrus.PanicLevel}
+}
 
 func (h *ackHook) Fire(e *logrus.Entry) error {
+	if e.Level <= logrus.FatalLevel {
+		// gostatsd calls logrus.Fatal when it cannot create its socket: the process is about to exit(1)
+		fmt.Fprintf(os.Stderr, "c20: gostatsd logged at level %v: %s %v\n", e.Level, e.Message, e.Data)
+		return nil
+	}
 	if e.Message != "report" {
 		return nil
 	}
@@ -232,6 +239,8 @@ const waitLimit = 10 * time.Second
 
 var runSeq int64
 var portMu sync.Mutex
+var tmpMu sync.Mutex
+var tmpDirs []string
 
 func freeAddr() (string, net.Listener) {
 	l, err := net.Listen("tcp", "127.0.0.1:0")
@@ -441,7 +450,11 @@ func runScenario(in input) (res result) {
 		res.infra = err.Error()
 		return
 	}
-	defer os.RemoveAll(dir)
+	// removed at process exit, not here: a server goroutine of a run that already returned (start-up
+	// failure scripts) may still be about to create its socket, and gostatsd logrus.Fatal()s if it cannot
+	tmpMu.Lock()
+	tmpDirs = append(tmpDirs, dir)
+	tmpMu.Unlock()
 	sock := filepath.Join(dir, "m.sock")
 
 	portMu.Lock()
@@ -663,6 +676,8 @@ func runScenario(in input) (res result) {
 		}
 	}
 	teleClient := &http.Client{Timeout: waitLimit}
+	defer teleClient.CloseIdleConnections()
+	defer ingClient.CloseIdleConnections()
 	postTele := func(recs []int) bool {
 		type rec struct {
 			Time   string                 `json:"time"`
@@ -1143,7 +1158,7 @@ func genCase(r *hlib.Rand, k int, tier string) input {
 		in.MaxElapMs = hlib.Pick(r, []int{60, 120})
 	case k%10 == 6:
 		in.Stream = "latedata"
-	case k%12 == 5:
+	case k%12 == 5 || k%12 == 11:
 		// function goroutines POST to the extension's HTTP ingestion during the invocation; the last,
 		// large batch is acknowledged immediately before runtimeDone; background batches keep coming
 		in.Stream = "httpdata"
@@ -1290,4 +1305,11 @@ func main() {
 	for _, c := range out {
 		em.Emit(c)
 	}
+	em.Close()
+	time.Sleep(20 * time.Millisecond)
+	tmpMu.Lock()
+	for _, d := range tmpDirs {
+		os.RemoveAll(d)
+	}
+	tmpMu.Unlock()
 }
